@@ -10,6 +10,13 @@
  *
  * Lines (numbers decimal, hex tokens with "-" = empty):
  *   img <hex>                                   set the image
+ *   imgz <size> <hex>                           set the image: <size> bytes, the given ones in front, zeroes behind (nothing is
+ *                                               stored for the zeroes: a sparse file)
+ *   valloc <0|1>                                1: inside the loader calls, requests of more than 256 MiB are granted as address
+ *                                               space without memory behind it, so that the code goes on past an allocation the
+ *                                               sanitizer's allocator would refuse (what it asks for next is what is compared)
+ *   allocs                                      -> allocs <s1,s2,..>: the sizes of 64 KiB and more that the previous line's
+ *                                               idtable / fragtable / xload / inode / unpack call handed to malloc/calloc/realloc, in order
  *   mr <start> <limit>                          new meta reader on the image
  *   seek <block> <offset>                       -> ok pos <block> <off> | err <NAME>
  *   read <n>                                    -> ok pos <block> <off> | err <NAME>
@@ -79,15 +86,22 @@
 typedef struct {
 	sqfs_file_t base;
 	unsigned char *data;
+	size_t have;		/* bytes stored in data; the file goes on with zeroes up to size */
 	size_t size;
 } memfile_t;
 
 static int mf_read_at(sqfs_file_t *f, sqfs_u64 off, void *buf, size_t size)
 {
 	memfile_t *m = (memfile_t *)f;
+	size_t n = 0;
 	if (off > m->size || size > m->size - off)
 		return SQFS_ERROR_IO;
-	memcpy(buf, m->data + off, size);
+	if (off < m->have) {
+		n = m->have - off < size ? m->have - off : size;
+		memcpy(buf, m->data + off, n);
+	}
+	if (n < size)
+		memset((char *)buf + n, 0, size - n);
 	return 0;
 }
 static int mf_write_at(sqfs_file_t *f, sqfs_u64 o, const void *b, size_t s) { (void)f; (void)o; (void)b; (void)s; return SQFS_ERROR_IO; }
@@ -101,6 +115,7 @@ static sqfs_file_t *memfile_new(const unsigned char *p, size_t n)
 	memfile_t *m = calloc(1, sizeof(*m));
 	m->data = malloc(n ? n : 1);
 	memcpy(m->data, p, n);
+	m->have = n;
 	m->size = n;
 	((sqfs_object_t *)m)->refcount = 1;
 	((sqfs_object_t *)m)->destroy = mf_destroy;
@@ -111,6 +126,74 @@ static sqfs_file_t *memfile_new(const unsigned char *p, size_t n)
 	m->base.get_filename = mf_name;
 	return (sqfs_file_t *)m;
 }
+
+/* ---------------------------------------------------------------- allocator wrapper
+ * linked with -Wl,--wrap=malloc,--wrap=calloc,--wrap=realloc,--wrap=free: every request of the library (and of this file)
+ * comes through here and goes on to the sanitizer's allocator.  While rec_on is set (around the loader calls) the sizes
+ * are written down; with valloc_on a request above VLIMIT gets address space only (MAP_NORESERVE). */
+#include <sys/mman.h>
+#include <malloc.h>
+void *__real_malloc(size_t n);
+void *__real_calloc(size_t a, size_t b);
+void *__real_realloc(void *p, size_t n);
+void __real_free(void *p);
+
+#define REC_MAX 64
+#define VLIMIT ((size_t)256 << 20)
+#define VMAX 16
+static int rec_on, valloc_on;
+static size_t rec_sz[REC_MAX];
+static int rec_n;
+static struct { void *p; size_t n; } vtab[VMAX];
+
+static void rec(size_t n) { if (rec_on && rec_n < REC_MAX) rec_sz[rec_n++] = n; }
+static int vfind(void *p)
+{
+	int i;
+	for (i = 0; i < VMAX; ++i)
+		if (p != NULL && vtab[i].p == p) return i;
+	return -1;
+}
+static void *vget(size_t n)
+{
+	int i; void *p;
+	for (i = 0; i < VMAX && vtab[i].p != NULL; ++i) ;
+	if (i == VMAX) return NULL;
+	p = mmap(NULL, n, PROT_READ | PROT_WRITE, MAP_PRIVATE | MAP_ANONYMOUS | MAP_NORESERVE, -1, 0);
+	if (p == MAP_FAILED) return NULL;
+	vtab[i].p = p; vtab[i].n = n;
+	return p;
+}
+static int vwanted(size_t n) { return rec_on && valloc_on && n > VLIMIT; }
+void *__wrap_malloc(size_t n) { rec(n); return vwanted(n) ? vget(n) : __real_malloc(n); }
+void *__wrap_calloc(size_t a, size_t b)
+{
+	size_t n;
+	if (__builtin_mul_overflow(a, b, &n)) return __real_calloc(a, b);
+	rec(n);
+	return vwanted(n) ? vget(n) : __real_calloc(a, b);
+}
+void __wrap_free(void *p)
+{
+	int i = vfind(p);
+	if (i >= 0) { munmap(vtab[i].p, vtab[i].n); vtab[i].p = NULL; return; }
+	__real_free(p);
+}
+void *__wrap_realloc(void *p, size_t n)
+{
+	int i = vfind(p);
+	rec(n);
+	if (i < 0 && !vwanted(n)) return __real_realloc(p, n);
+	{
+		size_t old = i >= 0 ? vtab[i].n : (p ? malloc_usable_size(p) : 0);
+		void *q = vwanted(n) ? vget(n) : __real_malloc(n);
+		if (q == NULL) return NULL;
+		if (p) memcpy(q, p, old < n ? old : n);
+		__wrap_free(p);
+		return q;
+	}
+}
+#define REC(call) do { rec_on = 1; call; rec_on = 0; } while (0)
 
 /* ---------------------------------------------------------------- toy codec */
 static sqfs_s32 toy_do_block(sqfs_compressor_t *c, const sqfs_u8 *in, sqfs_u32 size, sqfs_u8 *out, sqfs_u32 outsize)
@@ -165,6 +248,7 @@ static const char *ename(int e)
 
 static unsigned char *img;
 static size_t img_len;
+static size_t img_total;    /* size of the file (imgz: more than the img_len bytes stored) */
 static sqfs_meta_reader_t *mr;
 static sqfs_compressor_t *toy;
 
@@ -177,7 +261,9 @@ static int xpositioned;     /* a sqfs_xattr_reader_seek_kv succeeded since the r
 
 static sqfs_file_t *imgfile(void)
 {
-	return memfile_new(img ? img : (unsigned char *)"", img_len);
+	sqfs_file_t *f = memfile_new(img ? img : (unsigned char *)"", img_len);
+	((memfile_t *)f)->size = img_total;
+	return f;
 }
 
 static sqfs_u32 *parse_words(const char *tok, size_t *count)
@@ -240,14 +326,31 @@ int main(void)
 		char *p = strtok(line, " \n");
 		while (p && nt < MAXTOK) { t[nt++] = p; p = strtok(NULL, " \n"); }
 		if (nt == 0) { puts("bad-op"); continue; }
+		if (!strcmp(t[0], "allocs") && nt == 1) {
+			int i, k = 0;
+			printf("allocs ");
+			for (i = 0; i < rec_n; ++i)
+				if (rec_sz[i] >= 65536) printf("%s%zu", k++ ? "," : "", rec_sz[i]);
+			printf("\n");
+			continue;
+		}
+		rec_n = 0;
 
 		if (!strcmp(t[0], "img") && nt == 2) {
 			unsigned char *b; long n = hex_decode_tok(t[1], &b, 0);
 			if (n < 0) { puts("bad-op"); continue; }
-			free(img); img = b; img_len = (size_t)n;
+			free(img); img = b; img_len = (size_t)n; img_total = img_len;
+			puts("ok");
+		} else if (!strcmp(t[0], "imgz") && nt == 3) {
+			unsigned char *b; long n = hex_decode_tok(t[2], &b, 0);
+			if (n < 0 || U(t[1]) < (unsigned long long)n || U(t[1]) > 1073741824ULL) { puts("bad-op"); continue; }
+			free(img); img = b; img_len = (size_t)n; img_total = U(t[1]);
+			puts("ok");
+		} else if (!strcmp(t[0], "valloc") && nt == 2 && (!strcmp(t[1], "0") || !strcmp(t[1], "1"))) {
+			valloc_on = t[1][0] == '1';
 			puts("ok");
 		} else if (!strcmp(t[0], "mr") && nt == 3) {
-			sqfs_file_t *f = memfile_new(img ? img : (unsigned char *)"", img_len);
+			sqfs_file_t *f = imgfile();
 			sqfs_drop(mr);
 			mr = sqfs_meta_reader_create(f, toy, U(t[1]), U(t[2]));
 			sqfs_drop(f);
@@ -264,7 +367,7 @@ int main(void)
 			if (r) printf("err %s\n", ename(r));
 			else { sqfs_u64 b; size_t o; sqfs_meta_reader_get_position(mr, &b, &o); printf("ok pos %" PRIu64 " %zu\n", b, o); }
 		} else if (!strcmp(t[0], "getfrag") && nt == 8) {
-			sqfs_file_t *f = memfile_new(img ? img : (unsigned char *)"", img_len);
+			sqfs_file_t *f = imgfile();
 			sqfs_u32 bs = U(t[1]);
 			size_t nblk = U(t[3]), sz = 0;
 			sqfs_u32 *w = calloc(nblk ? nblk : 1, 4);
@@ -275,7 +378,7 @@ int main(void)
 			if (r) printf("err %s\n", ename(r)); else printf("ok %zu\n", sz);
 			free(out); free(ino); free(w); sqfs_drop(dr); sqfs_drop(f);
 		} else if (!strcmp(t[0], "stream") && nt == 9) {
-			sqfs_file_t *f = memfile_new(img ? img : (unsigned char *)"", img_len);
+			sqfs_file_t *f = imgfile();
 			sqfs_u32 bs = U(t[1]);
 			size_t nblk; sqfs_u32 *w = parse_words(t[8], &nblk);
 			sqfs_data_reader_t *dr = mk_data_reader(f, bs, U(t[6]), U(t[7]));
@@ -302,7 +405,7 @@ int main(void)
 			}
 			free(ino); free(w); sqfs_drop(dr); sqfs_drop(f);
 		} else if (!strcmp(t[0], "getblk") && nt == 6) {
-			sqfs_file_t *f = memfile_new(img ? img : (unsigned char *)"", img_len);
+			sqfs_file_t *f = imgfile();
 			sqfs_u32 bs = U(t[1]);
 			size_t nblk, sz = 0; sqfs_u32 *w = parse_words(t[5], &nblk);
 			sqfs_data_reader_t *dr = mk_data_reader(f, bs, 0, 0);
@@ -312,7 +415,7 @@ int main(void)
 			if (r) printf("err %s\n", ename(r)); else printf("ok %zu\n", sz);
 			free(out); free(ino); free(w); sqfs_drop(dr); sqfs_drop(f);
 		} else if (!strcmp(t[0], "dread") && nt == 11) {
-			sqfs_file_t *f = memfile_new(img ? img : (unsigned char *)"", img_len);
+			sqfs_file_t *f = imgfile();
 			sqfs_u32 bs = U(t[1]), size = U(t[9]);
 			size_t nblk; sqfs_u32 *w = parse_words(t[10], &nblk);
 			sqfs_data_reader_t *dr = mk_data_reader(f, bs, U(t[6]), U(t[7]));
@@ -336,7 +439,7 @@ int main(void)
 				memset(&super, 0, sizeof(super));
 				super.block_size = U(t[1]);
 				unsigned ty = 0, used = 0;
-				r = sqfs_meta_reader_read_inode(m, &super, 0, 0, &ino);
+				REC(r = sqfs_meta_reader_read_inode(m, &super, 0, 0, &ino));
 				if (!r) { ty = ino->base.type; used = ino->payload_bytes_used; }
 				/* released the way sqfs_dir_reader_resolve_path does it: also after a failed call
 				   (ino was NULL before); done before the answer is printed so that a crash here is
@@ -361,7 +464,7 @@ int main(void)
 			ino->payload_bytes_used = U(t[1]);
 			ino->payload_bytes_available = n;
 			memcpy(ino->extra, b, n);
-			r = sqfs_inode_unpack_dir_index_entry(ino, &idx, U(t[2]));
+			REC(r = sqfs_inode_unpack_dir_index_entry(ino, &idx, U(t[2])));   /* with `valloc 1` a huge request is granted: the copy that follows is what shows */
 			if (r) printf("err %s\n", ename(r)); else printf("ok %u\n", (unsigned)idx->size);
 			free(idx); free(ino); free(b);
 		} else if (!strcmp(t[0], "resolve") && nt == 3) {
@@ -416,7 +519,7 @@ int main(void)
 			sqfs_file_t *f = imgfile(); int r;
 			sqfs_drop(idtbl);
 			idtbl = sqfs_id_table_create(0);
-			r = sqfs_id_table_read(idtbl, f, &sb, toy);
+			REC(r = sqfs_id_table_read(idtbl, f, &sb, toy));
 			if (r) printf("err %s\n", ename(r)); else puts("ok");
 			sqfs_drop(f);
 		} else if (!strcmp(t[0], "idx") && nt == 2 && idtbl) {
@@ -426,7 +529,7 @@ int main(void)
 			sqfs_file_t *f = imgfile(); int r;
 			sqfs_drop(fragtbl);
 			fragtbl = sqfs_frag_table_create(0);
-			r = sqfs_frag_table_read(fragtbl, f, &sb, toy);
+			REC(r = sqfs_frag_table_read(fragtbl, f, &sb, toy));
 			if (r) printf("err %s\n", ename(r)); else puts("ok");
 			sqfs_drop(f);
 		} else if (!strcmp(t[0], "fragidx") && nt == 2 && fragtbl) {
@@ -439,7 +542,8 @@ int main(void)
 			puts(xr ? "ok" : "err ALLOC");
 		} else if (!strcmp(t[0], "xload") && nt == 1 && xr) {
 			sqfs_file_t *f = imgfile();
-			int r = sqfs_xattr_reader_load(xr, &sb, f, toy);
+			int r;
+			REC(r = sqfs_xattr_reader_load(xr, &sb, f, toy));
 			xpositioned = 0;
 			if (r) printf("err %s\n", ename(r)); else puts("ok");
 			sqfs_drop(f);
